@@ -21,10 +21,11 @@ import Driver.Handlers.MergeComposed
 import Driver.Handlers.Cache
 import Driver.Handlers.Merge
 import Driver.Handlers.Publish
+import Driver.Handlers.Totality
 namespace Driver
 
 def handlers : List (String → List String → Option String) :=
-  [handleDates, handleSimilarity, handleMatch, handleDateParse, handleDecoder, handleDiff, handleResolve, handleWarnings, handleEqual, handleLiving, handlePages, handleHtml, handleQuery, handleMergeGraph, handleMergeDocs, handleMergeComposed, handleCache, handleMerge, handlePublish]
+  [handleDates, handleSimilarity, handleMatch, handleDateParse, handleDecoder, handleDiff, handleResolve, handleWarnings, handleEqual, handleLiving, handlePages, handleHtml, handleQuery, handleMergeGraph, handleMergeDocs, handleMergeComposed, handleCache, handleMerge, handlePublish, handleTotality]
 
 def respond (line : String) : String :=
   match line.splitOn " " with
